@@ -41,7 +41,7 @@ PROPS = {
 PROBES = {'C10': ['landed_on_requested_time', 'prev_dt_restored', 'two_requested_in_one_step',
                   'requested_equals_step_time', 'requested_equals_tf', 'tf_clip', 'damping_during_landing',
                   'adaptive_none', 'max_steps_stop', 'requested_in_first_step', 'clock_jump_back',
-                  'dt_larger_than_tf', 'adaptive_jump', 'configured_through_setters', 'times_set_before_tf']}
+                  'dt_larger_than_tf', 'adaptive_jump', 'configured_through_setters', 'times_set_before_tf', 'continued_with_a_second_solve']}
 
 EPS2 = 2 * sys.float_info.epsilon
 SETTER_KEYS = ['tf', 'times', 'dt', 'pfreq', 'n_damp', 'adaptive']
@@ -127,6 +127,7 @@ def gen(t, prop, tier):
     # the way Application configures a solver
     if t.bool(0.3):
         sc['setters'] = t.shuffle([k for k in SETTER_KEYS if t.bool(0.6)])
+    sc['resume'] = int(max_steps is not None and t.bool(0.4))
     return sc
 
 
@@ -329,6 +330,11 @@ def execute(sc, prop):
             sys.stdout = FakeTTY()
         try:
             solver.solve(show_progress=True)
+            if sc.get('resume') and est <= 6000 and max_steps is not None and (tf - solver.t) > 100 * EPS2 * tf * max(1, solver.count):
+                # the run stopped at max_steps is continued with a second solve() on the same solver
+                h.log.append(('resume', solver.t, solver.count))
+                solver.set_max_steps(1 << 31)
+                solver.solve(show_progress=True)
         except Exception as e:
             import traceback
             crashed = traceback.format_exc()
@@ -341,6 +347,10 @@ def execute(sc, prop):
         violate('solve-raised', 'solve() raised: ' + crashed[-900:], tty=bool(sc.get('tty')))
 
     # ---- oracle over the recorded history
+    resumed = any(e[0] == 'resume' for e in h.log)
+    if resumed:
+        probe('continued_with_a_second_solve')
+        max_steps = None
     E = EPS2 * tf
     steps = [(e[1], e[2]) for e in h.log if e[0] == 'step']
     dumps = [(e[1], e[2], e[3]) for e in h.log if e[0] == 'dump']
